@@ -99,6 +99,12 @@ func c05Requests(c mcfg) []mevent {
 			r = append(r, mevent{Op: "write", Fid: 1, Count: n, Offset: 5})
 		}
 	}
+	// the protocol has no rule about offsets: the largest ones are forwarded like any other
+	for _, off := range []uint64{^uint64(0), ^uint64(0) - 15, 1 << 63, 1<<63 - 1, 1 << 32} {
+		for _, n := range []uint32{0, 1, 16} {
+			r = append(r, mevent{Op: "read", Fid: 1, Count: n, Offset: off}, mevent{Op: "write", Fid: 1, Count: n, Offset: off})
+		}
+	}
 	for _, op := range []string{"stat", "wstat", "clunk", "remove"} {
 		r = append(r, mevent{Op: op, Fid: 1})
 		r = append(r, mevent{Op: op, Fid: 1, ImplErr: true})
